@@ -88,10 +88,22 @@ let scall_of (s : st) (o : op) : scall option =
   | KGop (g, op) -> (match List.assoc_opt g s.names with Some sg -> Some (SGop (sg, op)) | None -> None)
   | KDrop g -> (match List.assoc_opt g s.names with Some sg -> Some (SDrop sg) | None -> None)
 
+(* sweeps (a lock_all_entries stream being polled, an idle-entry scan) of the history in hand: (thread, start, end).
+   While one is in progress its pending per-entry futures, or the scan itself, can own the mutex of a key without any
+   guard being visible (a future that was handed a valueless key gives it up again without showing it; the scan takes
+   every unlocked entry's mutex for a moment): "awaited by a pending acquisition" in the words of the property.  A try
+   of another thread that overlaps a sweep may therefore fail on a key the abstract machine sees as free. *)
+let sweeps : (int * int * int) list ref = ref []
+let overlaps_sweep (o : op) = List.exists (fun (th, a, b) -> th <> o.th && a < o.rsp && o.inv < b) !sweeps
+
 (* apply one operation to the abstract machine; None = not possible now / different result *)
 let apply ~pool (s : st) (o : op) : st option =
   match scall_of s o with
   | None -> None
+  | Some call when (match o.kind, o.res with KLock _, RNone -> true | _ -> false)
+                   && overlaps_sweep o
+                   && (match spec_call s.sp call with Some (_, Some OTryFail) -> false | _ -> true) ->
+      Some s      (* a failed try during somebody's sweep: no effect *)
   | Some call ->
     (match spec_call s.sp call with
      | Some (sp', Some ob) ->
@@ -140,6 +152,7 @@ let replay_on_model ~lru ~pool (order : op list) : string option =
         | KGop (g, op) -> SGop (List.assoc g !names, op)
         | KDrop g -> SDrop (List.assoc g !names)) in
       match seq_call c !st O call with
+      | ROk (_, OGuard _) when o.res = RNone && overlaps_sweep o -> ()   (* a failed try during somebody's sweep *)
       | ROk (s', ob) ->
           (match res_of_obs ~pool ob with
            | Some r when same_res r o.res ->
@@ -171,7 +184,8 @@ let () =
     while true do
       let line = String.trim (input_line ic) in
       match split line with
-      | "hist" :: i :: b :: k :: _ -> id := i; backend := b; nkeys := int_of_string k; cur := []; final_keys := None
+      | "hist" :: i :: b :: k :: _ -> id := i; backend := b; nkeys := int_of_string k; cur := []; final_keys := None; sweeps := []
+      | "sweep" :: th :: a :: b :: _ -> sweeps := (int_of_string th, int_of_string a, int_of_string b) :: !sweeps
       | "op" :: _ -> cur := parse_op line :: !cur
       | "final" :: ks -> final_keys := Some (List.sort compare (List.map int_of_string ks))
       | "end" :: _ ->
